@@ -142,3 +142,13 @@ package actionlint
 //@   props C07
 //@   forbid_call (*ExprParser).next
 //@   at_call (*ExprParser).errorf: p.cur == t
+
+// C07 / C11: every scanner of a scalar hands checkExprsIn the text, the position and the quoting of that very
+// scalar (the column of a diagnostic inside a quoted scalar is one further), and only the scanner of scripts
+// asks for the untrusted-input check
+//@ func (*RuleExpression).checkOneExpression
+//@   at_call [C07 C11] (*RuleExpression).checkExprsIn: s == s0.Value && pos == s0.Pos && quoted == s0.Quoted && !checkUntrusted
+//@ func (*RuleExpression).checkString
+//@   at_call [C07 C11] (*RuleExpression).checkExprsIn: s == str.Value && pos == str.Pos && quoted == str.Quoted && !checkUntrusted
+//@ func (*RuleExpression).checkScriptString
+//@   at_call [C07 C11] (*RuleExpression).checkExprsIn: s == str.Value && pos == str.Pos && quoted == str.Quoted && checkUntrusted
